@@ -1,13 +1,16 @@
 ----------------------------- MODULE MC_TzIndex -----------------------------
-(* Bounded design model of C34.  One state per input [z, lo, hi] (plus seed states): a synthetic zone z (TzIndex!WellFormed) *)
-(* with at most MaxTr transitions at instants of the window lo..hi = -Half..Half (edges included), offsets   *)
-(* -MaxOff..MaxOff except 0 (hours west of UTC; consecutive offsets may be equal = a change of abbreviation only), and the window *)
-(* of instants to probe.  Instant 0 is the UTC midnight that starts day 0, so the window straddles a     *)
-(* date line for every offset.  A second, wider family (-WHalf..WHalf, WMaxTr; WHalf = 0: none) has fewer   *)
-(* transitions; a third holds zones that cross the date line (24 h jumps).  SpecSane: the admissible-output relation accepts the reference conversions (Index /     *)
-(* IndexDt as moment.py documents them) on every probe of every zone - in particular the intended        *)
-(* IndexDt round-trips every instant and assigns every skipped / repeated local time an offset in use    *)
-(* around the instant.  The input space is written to OUT_FILE.                                          *)
+(* Bounded design model of C34.  One state per input [z, lo, hi] (plus seed states, see below):        *)
+(* a synthetic zone z (TzIndex!WellFormed) and the window lo..hi of instants to probe.                  *)
+(*  family 1: <= MaxTr transitions at any instants of -Half..Half (edges included), offsets from       *)
+(*            -MaxOff..MaxOff except 0 (hours west of UTC); consecutive offsets may be equal (a change *)
+(*            of abbreviation only).  Instant 0 is the UTC midnight that starts day 0, so the window   *)
+(*            straddles every zone's own midnight: gaps and overlaps before, at and after it           *)
+(*  family 2: the same over -WHalf..WHalf with <= WMaxTr transitions (WHalf = 0: none)                  *)
+(*  family 3: zones that cross the date line (a 24 h jump that skips or repeats a whole day)           *)
+(* SpecSane: the admissible-output relation accepts the reference conversions (Index / IndexDt as       *)
+(* moment.py documents them) on every probe of every zone - in particular the intended IndexDt          *)
+(* round-trips every instant, assigns every skipped / repeated local time an offset in use around the  *)
+(* instant, and every date has a midnight instant on that date.  The input space goes to OUT_FILE.      *)
 EXTENDS TzIndex, TLC, Json, IOUtils, FiniteSetsExt
 CONSTANTS Half, MaxTr, WHalf, WMaxTr, MaxOff
 
